@@ -2,7 +2,7 @@
   Props/C11.lean — property C11: concurrent git-ai activity in one repository loses nothing.
 
   Model: Model/Conc.lean (k processes, atomic read / write steps on shared cells = checkpoints
-  journals, rewrite logs, the notes ref; three locking disciplines). Lemmas: Lemmas/Conc.lean.
+  journals, rewrite logs, the notes ref; locking disciplines none / append / full / tbl). Lemmas: Lemmas/Conc.lean.
 
   1. `lost_update_witness` (+ `_rewrite_log`, `_notes`, `_notes_cas`): WITHOUT locks (git-ai before
      the C11 repair) there are two-process schedules after which an update is gone — the negation of
@@ -20,8 +20,22 @@
      commute, and the only cell two worktrees share is the notes ref.
   4. `same_file_race_equivalent`: two concurrent checkpoints (same file or not) end in the state
      of one of the two serial orders.
+  5. Mixed notes writers. The position of the lock acquisition of the two kinds of notes writer
+     (single: `notes_add` = `git notes add`, blind write; batch: `notes_add_batch` = `rev-parse` +
+     `fast-import from <tip>`, compare-and-swap, not retried) is a parameter of the model (`Mode.tbl`),
+     computed by `tableOf` from the statement order EXTRACTED from src/git/refs.rs
+     (Extracted/NotesLockOrder.lean). `extracted_lock_order`: every extracted writer has
+     lock < read < write with the guard held to the end (by `decide`; a change of the order in the
+     source breaks this obligation). `mixed_writers_serializable`: for the extracted order, any
+     number of batch and single writers, any schedule — the notes ref is the serial result of the
+     completed writers in lock-acquisition order, every writer's note is present once all have
+     finished, and it is intact (the writer's own text) when no other writer names that commit.
+     `read_before_lock_loses_note`: with the batch writer's lock taken after its read of the tip (the
+     order [read, lock, write]) a two-process schedule loses the batch writer's note and the result
+     is neither serial order.
 -/
 import GitAiModel.Lemmas.Conc
+import GitAiModel.Extracted.NotesLockOrder
 namespace GitAi.Conc
 
 /-! ## 1. Without locks updates are lost -/
@@ -74,7 +88,7 @@ def wBatch : Pid → List Op
 
 /-- fast-import compares, refuses, and git-ai does not retry: the batch's notes are dropped -/
 theorem lost_update_witness_notes_cas :
-    let s := run .none (init .none (fun _ => .notes 0 []) wBatch) [0, 1, 1, 0]
+    let s := run .none (init .none (fun _ => .notes 0 []) wBatch) [0, 0, 1, 1, 0]
     (s.procs 0).ops = [] ∧ (s.procs 1).ops = [] ∧
     get (s.cell kN).map 71 = none ∧ get (s.cell kN).map 72 = some 82 := by
   decide
@@ -448,6 +462,164 @@ theorem same_file_race_equivalent (c₀ : Path → Val) (a b : Op) (k : Path) (h
   · left; rw [hs, e]; rfl
   · right; rw [hs, e]; rfl
 
+/-! ## 5. Mixed notes writers (batch + single), lock position extracted from the source -/
+
+open GitAi.Extracted in
+/-- **Extraction obligation.** Every function of git-ai that moves `refs/notes/ai` takes the notes
+    lock before it reads the tip, reads before it writes, and keeps the guard until it returns. -/
+theorem extracted_lock_order : ∀ w ∈ NotesLock.writers, w.lockReadWrite = true := by decide
+
+open GitAi.Extracted in
+/-- the table of the `tbl` discipline that is tied to the code -/
+def extractedTable : LockTable := tableOf NotesLock.writers
+
+theorem extractedTable_ok : extractedTable.ok := tableOf_ok _ extracted_lock_order
+
+/-- **Mixed writers, any lock table with lock < read < write.** -/
+theorem mixed_writers_serializable_of_ok (t : LockTable) (ht : t.ok)
+    (c₀ : Path → Val) (P₀ : Pid → List Op) (sched : List Pid) (k : Path)
+    (t₀ : Nat) (m₀ : List (Nat × Nat)) (hc : c₀ k = .notes t₀ m₀)
+    (hn : ∀ p, ∀ op ∈ P₀ p, op.key = k → op.isNote = true) :
+    let s := run (.tbl t) (init (.tbl t) c₀ P₀) sched
+    -- (a) the result equals a serial order: that of the lock acquisitions
+    s.cell k = seqRun (c₀ k) (s.done k) ∧ s.done k <+: s.acqd k ∧
+    -- (b) no completed writer's note is dropped: the note of `c` is the last one written for `c`
+    (∀ c, get (s.cell k).map c =
+      match ((s.done k).flatMap (fun x => x.2.pairs)).reverse.find? (fun p => p.1 == c) with
+      | some p => some p.2
+      | none => get m₀ c) ∧
+    -- (c) when all have finished: every writer of every program completed exactly once, in order …
+    (finished s →
+      s.done k = s.acqd k ∧
+      (∀ p, ((s.done k).filter (fun x => decide (x.1 = p))).map (·.2) = (P₀ p).filter (fun o => decide (o.key = k))) ∧
+      -- … so every commit's note is present …
+      (∀ p, ∀ op ∈ P₀ p, op.key = k → ∀ c n, (c, n) ∈ op.pairs → ∃ n', get (s.cell k).map c = some n') ∧
+      -- … and intact when no other writer names that commit
+      (∀ p, ∀ op ∈ P₀ p, op.key = k → ∀ c n, (c, n) ∈ op.pairs →
+        (∀ q, ∀ op' ∈ P₀ q, op'.key = k → ∀ x ∈ op'.pairs, x.1 = c → x = (c, n)) →
+        get (s.cell k).map c = some n)) := by
+  intro s
+  have hs : s = run .full (init .full c₀ P₀) sched := by
+    show run (.tbl t) (init (.tbl t) c₀ P₀) sched = _
+    rw [run_tbl_ok ht, init_tbl_ok ht]
+  obtain ⟨hser, hpre, hfinal⟩ := locked_serializable c₀ P₀ sched
+  have hpres := locked_notes_present c₀ P₀ sched k t₀ m₀ hc hn
+  rw [← hs] at hser hpre hfinal hpres
+  refine ⟨hser k, hpre k, hpres, ?_⟩
+  intro hfin
+  obtain ⟨hda, hprog⟩ := hfinal hfin
+  -- every update of a program on `k` is among the completed ones, and vice versa
+  have mem_done : ∀ p, ∀ op ∈ P₀ p, op.key = k → (p, op) ∈ s.done k := by
+    intro p op hop hk
+    have : op ∈ (P₀ p).filter (fun o => decide (o.key = k)) := List.mem_filter.mpr ⟨hop, by simp [hk]⟩
+    rw [← hprog p k] at this
+    obtain ⟨x, hx, e⟩ := List.mem_map.mp this
+    obtain ⟨hx1, hx2⟩ := List.mem_filter.mp hx
+    have e1 : x.1 = p := by simpa using hx2
+    have : x = (p, op) := by cases x; simp_all
+    rw [← this]; exact hx1
+  have done_mem : ∀ x ∈ s.done k, x.2 ∈ P₀ x.1 ∧ x.2.key = k := by
+    intro x hx
+    have hmem : x.2 ∈ ((s.done k).filter (fun y => decide (y.1 = x.1))).map (·.2) :=
+      List.mem_map.mpr ⟨x, List.mem_filter.mpr ⟨hx, by simp⟩, rfl⟩
+    rw [hprog x.1 k] at hmem
+    obtain ⟨h1, h2⟩ := List.mem_filter.mp hmem
+    exact ⟨h1, by simpa using h2⟩
+  have mem_pairs : ∀ p, ∀ op ∈ P₀ p, op.key = k → ∀ c n, (c, n) ∈ op.pairs →
+      (c, n) ∈ ((s.done k).flatMap (fun x => x.2.pairs)).reverse := by
+    intro p op hop hk c n hcn
+    exact List.mem_reverse.mpr (List.mem_flatMap.mpr ⟨(p, op), mem_done p op hop hk, hcn⟩)
+  refine ⟨hda k, fun p => hprog p k, ?_, ?_⟩
+  · intro p op hop hk c n hcn
+    obtain ⟨n', hn'⟩ := find?_isSome_of_mem (mem_pairs p op hop hk c n hcn)
+    refine ⟨n', ?_⟩
+    rw [hpres c]
+    cases hf : (((s.done k).flatMap (fun x => x.2.pairs)).reverse.find? (fun p => p.1 == c)) with
+    | some q => rw [hf] at hn'; simpa using hn'
+    | none => rw [hf] at hn'; simp at hn'
+  · intro p op hop hk c n hcn huniq
+    have hu : ∀ x ∈ ((s.done k).flatMap (fun x => x.2.pairs)).reverse, x.1 = c → x = (c, n) := by
+      intro x hx hxc
+      obtain ⟨y, hy, hxy⟩ := List.mem_flatMap.mp (List.mem_reverse.mp hx)
+      obtain ⟨h1, h2⟩ := done_mem y hy
+      exact huniq y.1 y.2 h1 h2 x hxy hxc
+    rw [hpres c, find?_unique (mem_pairs p op hop hk c n hcn) hu]
+
+/-- **C11, mixed notes writers, for the lock order the source has.** Any number of processes, each
+    running any sequence of batch writers (`notes_add_batch`: rebase, cherry-pick, note remaps) and
+    single writers (`notes_add`: commit, amend) on the one `refs/notes/ai` of a repository, under
+    ANY schedule of their lock / read / build / write steps, with the lock positions extracted from
+    src/git/refs.rs: the notes are the serial result of the completed writers in lock-acquisition
+    order; once all have finished every writer ran exactly once, every commit's note is present, and
+    it is the writer's own text when no other writer names that commit. -/
+theorem mixed_writers_serializable
+    (c₀ : Path → Val) (P₀ : Pid → List Op) (sched : List Pid) (k : Path)
+    (t₀ : Nat) (m₀ : List (Nat × Nat)) (hc : c₀ k = .notes t₀ m₀)
+    (hn : ∀ p, ∀ op ∈ P₀ p, op.key = k → op.isNote = true) :
+    let s := run (.tbl extractedTable) (init (.tbl extractedTable) c₀ P₀) sched
+    s.cell k = seqRun (c₀ k) (s.done k) ∧ s.done k <+: s.acqd k ∧
+    (∀ c, get (s.cell k).map c =
+      match ((s.done k).flatMap (fun x => x.2.pairs)).reverse.find? (fun p => p.1 == c) with
+      | some p => some p.2
+      | none => get m₀ c) ∧
+    (finished s →
+      s.done k = s.acqd k ∧
+      (∀ p, ((s.done k).filter (fun x => decide (x.1 = p))).map (·.2) = (P₀ p).filter (fun o => decide (o.key = k))) ∧
+      (∀ p, ∀ op ∈ P₀ p, op.key = k → ∀ c n, (c, n) ∈ op.pairs → ∃ n', get (s.cell k).map c = some n') ∧
+      (∀ p, ∀ op ∈ P₀ p, op.key = k → ∀ c n, (c, n) ∈ op.pairs →
+        (∀ q, ∀ op' ∈ P₀ q, op'.key = k → ∀ x ∈ op'.pairs, x.1 = c → x = (c, n)) →
+        get (s.cell k).map c = some n)) :=
+  mixed_writers_serializable_of_ok extractedTable extractedTable_ok c₀ P₀ sched k t₀ m₀ hc hn
+
+/-- the statement order `[read, lock, write]` (the batch writer takes the lock only before
+    `fast-import`) gives the table entry `beforeWrite`, and fails the extraction obligation -/
+theorem read_before_lock_order :
+    let w : NotesWriter := ⟨['b'], .cas, [.read, .lock, .write], true⟩
+    w.pos = .beforeWrite ∧ w.lockReadWrite = false ∧
+    tableOf [⟨['a'], .blind, [.lock, .read, .write], true⟩, w] = ⟨.beforeRead, .beforeWrite⟩ := by
+  decide
+
+/-- a guard that is dropped at once (`let _ = lock_notes_ref(..)`), or no lock statement: `never` -/
+theorem unheld_lock_order :
+    (⟨['a'], .blind, [.lock, .read, .write], false⟩ : NotesWriter).pos = .never ∧
+    (⟨['a'], .blind, [.read, .write], true⟩ : NotesWriter).pos = .never ∧
+    (⟨['a'], .blind, [.read, .write, .lock], true⟩ : NotesWriter).pos = .never := by
+  decide
+
+/-- the batch writer of process 0 reads the tip BEFORE it takes the lock -/
+def tLate : LockTable := ⟨.beforeRead, .beforeWrite⟩
+
+/-- **Read before lock loses a note.** Batch writer 0 (note of commit 71) reads the tip and builds
+    its script; single writer 1 (note of commit 72) locks, reads, writes, unlocks; writer 0 locks
+    and runs fast-import, which refuses the moved ref. Both processes finish, the lock was taken by
+    both — and the note of commit 71 is gone. Neither serial order gives that. -/
+theorem read_before_lock_loses_note :
+    let s := run (.tbl tLate) (init (.tbl tLate) (fun _ => .notes 0 []) wBatch) [0, 0, 1, 1, 1, 0, 0]
+    (s.procs 0).ops = [] ∧ (s.procs 1).ops = [] ∧
+    (s.acqd kN).map (·.1) = [1, 0] ∧
+    get (s.cell kN).map 71 = none ∧ get (s.cell kN).map 72 = some 82 ∧
+    s.cell kN ≠ seqRun (.notes 0 []) [(0, .noteBatch kN 1 [(71, 81)]), (1, .noteAdd kN 2 72 82)] ∧
+    s.cell kN ≠ seqRun (.notes 0 []) [(1, .noteAdd kN 2 72 82), (0, .noteBatch kN 1 [(71, 81)])] := by
+  decide
+
+/-- the same two writers under the extracted table, same schedule (continued until both are done):
+    the single writer waits, both notes are there -/
+example :
+    let s := run (.tbl extractedTable) (init (.tbl extractedTable) (fun _ => .notes 0 []) wBatch)
+               [0, 0, 1, 1, 1, 0, 0, 1, 1, 1]
+    (s.procs 0).ops = [] ∧ (s.procs 1).ops = [] ∧
+    get (s.cell kN).map 71 = some 81 ∧ get (s.cell kN).map 72 = some 82 := by
+  decide
+
+/-- the hypotheses of `mixed_writers_serializable` are satisfiable: the programs of `wBatch` are
+    notes writers of one cell, no two name the same commit -/
+example : (∀ p, ∀ op ∈ wBatch p, op.key = kN → op.isNote = true) := by
+  intro p op h _
+  match p, h with
+  | 0, h => simp [wBatch] at h; subst h; rfl
+  | 1, h => simp [wBatch] at h; subst h; rfl
+  | (n + 2), h => simp [wBatch] at h
+
 /-! ## Non-vacuity -/
 
 /-- the locked discipline lets both reporters of `lost_update_witness`'s schedule finish, with both
@@ -501,5 +673,11 @@ example :
 #print axioms worktree_isolation
 #print axioms fallback_collision_witness
 #print axioms same_file_race_equivalent
+#print axioms extracted_lock_order
+#print axioms mixed_writers_serializable_of_ok
+#print axioms mixed_writers_serializable
+#print axioms read_before_lock_order
+#print axioms unheld_lock_order
+#print axioms read_before_lock_loses_note
 
 end GitAi.Conc
